@@ -516,7 +516,7 @@ pub fn prop() -> DiceProp {
         nightly: false,
         check_only: false,
         ndice: 200,
-        quick: (2000, 1),
+        quick: (8000, 1),
         thorough: (5000, 8),
         build,
         fixed: no_fixed,
